@@ -258,6 +258,7 @@ structure TakeFacts {V : Type} (ops : Ops V) (r : Run V) (st : St V) (i : Nat) (
   capd : ∀ x, x ∈ capDeps r.g op → st2.temps x = st.temps x ∨
     (st2.temps x = none ∧ ∃ v, st.temps x = some v ∧ (x, v) ∈ byVal)
   notaken : taken = [] → ∀ x, x ∉ capDeps r.g op → st2.temps x = st.temps x
+  nonempty : taken ≠ [] → ops.inPlaceIdx i ≠ []
 
 theorem capDeps_not_input {g : Graph} {op : OpNode} {x : Nat} (h : x ∈ capDeps g op) :
     x ∉ opInputs op := by
@@ -275,22 +276,25 @@ theorem capDeps_not_input {g : Graph} {op : OpNode} {x : Nat} (h : x ∈ capDeps
   rw [List.contains_eq_mem] at h2
   simp [ha] at h2
 
-theorem takeFacts {V : Type} {ops : Ops V} {r : Run V} {st st' : St V} {i : Nat} {tr : StepTrace}
-    (P : StepParts ops r st st' i tr) (hc : NoCaps st) :
-    TakeFacts ops r st i P.op P.taken P.st2 P.byVal := by
-  have htake := P.htake
-  have hbv := P.hbyval
+theorem takeFacts' {V : Type} {ops : Ops V} {r : Run V} {st : St V} {i : Nat} {op : OpNode}
+    {st1 : St V} {taken : List (Nat × V)} {st2 : St V} {byVal : List (Nat × V)}
+    (htake : (if (!(candidates ops i op st.temps).isEmpty &&
+      (candidates ops i op st.temps).all (fun c => canTake r st c.2) && !r.neverInPlace) = true
+      then takeAll r st (candidates ops i op st.temps) else some (st, [])) = some (st1, taken))
+    (hbv : (if ops.isSubgraph i = true then takeByValue r st1 (capDeps r.g op) else (st1, []))
+      = (st2, byVal)) (hc : NoCaps st) :
+    TakeFacts ops r st i op taken st2 byVal := by
   -- phase 1
-  have h1 : ∃ tc : List (Nat × Nat), (∀ c ∈ tc, c ∈ candidates ops i P.op st.temps) ∧
-      P.st1.rc = st.rc ∧ P.st1.caps = st.caps ∧
-      All₂ (fun c t => t.1 = c.1 ∧ st.rc c.2 = 1 ∧ st.temps c.2 = some t.2) tc P.taken ∧
-      (∀ x, P.st1.temps x = if x ∈ tc.map (fun c => c.2) then none else st.temps x) ∧
-      (P.taken = [] → tc = []) := by
-    by_cases hcond : (!(candidates ops i P.op st.temps).isEmpty &&
-        (candidates ops i P.op st.temps).all (fun c => canTake r st c.2) && !r.neverInPlace) = true
+  have h1 : ∃ tc : List (Nat × Nat), (∀ c ∈ tc, c ∈ candidates ops i op st.temps) ∧
+      st1.rc = st.rc ∧ st1.caps = st.caps ∧
+      All₂ (fun c t => t.1 = c.1 ∧ st.rc c.2 = 1 ∧ st.temps c.2 = some t.2) tc taken ∧
+      (∀ x, st1.temps x = if x ∈ tc.map (fun c => c.2) then none else st.temps x) ∧
+      (taken = [] → tc = []) := by
+    by_cases hcond : (!(candidates ops i op st.temps).isEmpty &&
+        (candidates ops i op st.temps).all (fun c => canTake r st c.2) && !r.neverInPlace) = true
     · rw [if_pos hcond] at htake
       obtain ⟨ha, hcaps, hrc, htemps⟩ := takeAll_spec hc htake
-      refine ⟨candidates ops i P.op st.temps, fun c h => h, hrc, hcaps, ha, htemps, ?_⟩
+      refine ⟨candidates ops i op st.temps, fun c h => h, hrc, hcaps, ha, htemps, ?_⟩
       intro ht; rw [ht] at ha; exact ha.nil_right
     · rw [if_neg hcond] at htake
       simp only [Option.some.injEq, Prod.mk.injEq] at htake
@@ -298,17 +302,17 @@ theorem takeFacts {V : Type} {ops : Ops V} {r : Run V} {st st' : St V} {i : Nat}
       refine ⟨[], by simp, by rw [← h1], by rw [← h1], by rw [← h2]; exact .nil, ?_, fun _ => rfl⟩
       intro x; rw [← h1]; simp
   obtain ⟨tc, htc, hrc1, hcaps1, ha, htemps1, htnil⟩ := h1
-  have hc1 : NoCaps P.st1 := by intro v; rw [hcaps1]; exact hc v
+  have hc1 : NoCaps st1 := by intro v; rw [hcaps1]; exact hc v
   -- phase 2
-  have h2 : P.st2.rc = P.st1.rc ∧ P.st2.caps = P.st1.caps ∧
-      (∀ x, P.st2.temps x = P.st1.temps x ∨
-        (P.st2.temps x = none ∧ x ∈ capDeps r.g P.op ∧ P.st1.rc x = 1 ∧
-          ∃ v, P.st1.temps x = some v ∧ (x, v) ∈ P.byVal)) ∧
-      (∀ x v, (x, v) ∈ P.byVal → x ∈ capDeps r.g P.op ∧ P.st1.temps x = some v ∧
-        P.st2.temps x = none) := by
+  have h2 : st2.rc = st1.rc ∧ st2.caps = st1.caps ∧
+      (∀ x, st2.temps x = st1.temps x ∨
+        (st2.temps x = none ∧ x ∈ capDeps r.g op ∧ st1.rc x = 1 ∧
+          ∃ v, st1.temps x = some v ∧ (x, v) ∈ byVal)) ∧
+      (∀ x v, (x, v) ∈ byVal → x ∈ capDeps r.g op ∧ st1.temps x = some v ∧
+        st2.temps x = none) := by
     split at hbv
-    · have hs := takeByValue_spec (r := r) (ds := capDeps r.g P.op) hc1
-      have hr := takeByValue_rc r P.st1 (capDeps r.g P.op)
+    · have hs := takeByValue_spec (r := r) (ds := capDeps r.g op) hc1
+      have hr := takeByValue_rc r st1 (capDeps r.g op)
       rw [hbv] at hs hr
       exact ⟨hr, hs.1, hs.2.1, hs.2.2⟩
     · simp only [Prod.mk.injEq] at hbv
@@ -318,11 +322,11 @@ theorem takeFacts {V : Type} {ops : Ops V} {r : Run V} {st st' : St V} {i : Nat}
   obtain ⟨hrc2, hcaps2, htemps2, hbyval⟩ := h2
   -- candidates that were taken
   have hcand : ∀ c ∈ tc,
-      P.op.inputs[c.1]? = some (some c.2) ∧ (c.1 ∈ ops.inPlaceIdx i ∨ P.op.commutative = true) :=
+      op.inputs[c.1]? = some (some c.2) ∧ (c.1 ∈ ops.inPlaceIdx i ∨ op.commutative = true) :=
     fun c hcm => candidates_spec (htc c hcm)
-  have st1_cases : ∀ x, P.st1.temps x = st.temps x ∨
-      (P.st1.temps x = none ∧ st.rc x = 1 ∧ x ∈ opInputs P.op ∧ st.temps x ≠ none ∧
-        ∃ p, p ∈ P.taken.map (fun t => t.1) ∧ P.op.inputs[p]? = some (some x)) := by
+  have st1_cases : ∀ x, st1.temps x = st.temps x ∨
+      (st1.temps x = none ∧ st.rc x = 1 ∧ x ∈ opInputs op ∧ st.temps x ≠ none ∧
+        ∃ p, p ∈ taken.map (fun t => t.1) ∧ op.inputs[p]? = some (some x)) := by
     intro x
     rw [htemps1 x]
     split
@@ -334,7 +338,7 @@ theorem takeFacts {V : Type} {ops : Ops V} {r : Run V} {st st' : St V} {i : Nat}
       refine ⟨rfl, h2, mem_opInputs (hcand c hcm).1, by rw [h3]; simp, c.1, ?_, (hcand c hcm).1⟩
       rw [List.mem_map]; exact ⟨t, ht, h1⟩
     · left; rfl
-  refine ⟨by rw [hrc2, hrc1], by rw [hcaps2, hcaps1], ?_, ?_, ?_, ?_, ?_, ?_⟩
+  refine ⟨by rw [hrc2, hrc1], by rw [hcaps2, hcaps1], ?_, ?_, ?_, ?_, ?_, ?_, ?_⟩
   · intro p v hpv
     obtain ⟨c, hcm, h1, h2, h3⟩ := ha.mem_right hpv
     simp only at h1
@@ -354,8 +358,8 @@ theorem takeFacts {V : Type} {ops : Ops V} {r : Run V} {st st' : St V} {i : Nat}
         rw [opDeps_eq]; exact List.mem_append_right _ hx
       · rw [h'] at hv; simp at hv
   · intro p d hp hd hcount
-    have hd_in : d ∈ opInputs P.op := mem_opInputs hd
-    have h2 : P.st2.temps d = P.st1.temps d := by
+    have hd_in : d ∈ opInputs op := mem_opInputs hd
+    have h2 : st2.temps d = st1.temps d := by
       rcases htemps2 d with h | ⟨_, hx, _⟩
       · exact h
       · exact absurd hd_in (capDeps_not_input hx)
@@ -366,7 +370,7 @@ theorem takeFacts {V : Type} {ops : Ops V} {r : Run V} {st st' : St V} {i : Nat}
       have hpq : p ≠ q := by rintro rfl; exact hp hq
       have h2' := count_two hd hqd hpq
       have := hcount hr hne
-      have h3 : (opDeps r.g P.op).count d = (opInputs P.op).count d + (capDeps r.g P.op).count d := by
+      have h3 : (opDeps r.g op).count d = (opInputs op).count d + (capDeps r.g op).count d := by
         rw [opDeps_eq, List.count_append]
       unfold opInputs at h3
       omega
@@ -377,7 +381,7 @@ theorem takeFacts {V : Type} {ops : Ops V} {r : Run V} {st st' : St V} {i : Nat}
     · rw [← h]; exact hv
     · rw [h] at hv; simp at hv
   · intro x hx
-    have h1 : P.st1.temps x = st.temps x := by
+    have h1 : st1.temps x = st.temps x := by
       rcases st1_cases x with h | ⟨_, _, hin, _⟩
       · exact h
       · exact absurd hin (capDeps_not_input hx)
@@ -385,10 +389,22 @@ theorem takeFacts {V : Type} {ops : Ops V} {r : Run V} {st st' : St V} {i : Nat}
     · left; rw [h, h1]
     · right; exact ⟨h, v, by rw [← h1]; exact hv, hm⟩
   · intro ht x hx
-    have h1 : P.st1.temps x = st.temps x := by
+    have h1 : st1.temps x = st.temps x := by
       rw [htemps1 x, htnil ht]; simp
     rcases htemps2 x with h | ⟨_, hx', _⟩
     · rw [h, h1]
     · exact absurd hx' hx
+  · intro hne hidx
+    cases htk : taken with
+    | nil => exact hne htk
+    | cons t ts =>
+      obtain ⟨c0, hc0, _⟩ := ha.mem_right (show t ∈ taken by rw [htk]; exact List.mem_cons_self)
+      have hcm := htc c0 hc0
+      unfold candidates at hcm
+      simp [hidx] at hcm
+
+theorem takeFacts {V : Type} {ops : Ops V} {r : Run V} {st st' : St V} {i : Nat} {tr : StepTrace}
+    (P : StepParts ops r st st' i tr) (hc : NoCaps st) :
+    TakeFacts ops r st i P.op P.taken P.st2 P.byVal := takeFacts' P.htake P.hbyval hc
 
 end RtenVerif.Executor
